@@ -37,6 +37,7 @@ package txnsnapshot
 import (
 	"bytes"
 	"context"
+	"math"
 
 	"github.com/pingcap/kvproto/pkg/kvrpcpb"
 	"github.com/pkg/errors"
@@ -74,6 +75,11 @@ func newScanner(snapshot *KVSnapshot, startKey []byte, endKey []byte, batchSize 
 	// It must be > 1. Otherwise scanner won't skipFirst.
 	if batchSize <= 1 {
 		batchSize = DefaultScanBatchSize
+	}
+	// The batch size is sent as the uint32 limit of the scan request. A larger value would be truncated there while a
+	// short batch is still taken for the end of the region, so keys would be skipped silently.
+	if batchSize > math.MaxUint32 {
+		batchSize = math.MaxUint32
 	}
 	scanner := &Scanner{
 		snapshot:     snapshot,
